@@ -44,10 +44,25 @@ def run_one(sc, raises):
     from recorder import Recorder
 
     rec = Recorder(seed=0, max_delay=0.0)
+    box = {}
+
+    def go():
+        try:
+            box["o"] = run_scenario(dict(sc, raises=raises), timeout=0.8)
+        except Exception as e:  # noqa: BLE001
+            box["exc"] = f"{type(e).__name__}: {e}"
+
     # one recorder per run would need exclusive use of events.trigger: runs are serialised by the caller's lock
     with rec:
-        o = run_scenario(dict(sc, raises=raises), timeout=0.8)
+        t = threading.Thread(target=go, name="C26Run", daemon=True)
+        t.start()
+        t.join(20)
     crashed = sorted({m for _, m in rec.crashes})
+    if "o" not in box:
+        # the scenario's public calls did not return (timeouts are 0.8 s) or the lab failed: an exchange of its own kind
+        hung = {"wire_r": ["hung"], "wire_a": ["hung"], "dimse_r": [], "dimse_a": [], "out_r": ["call-never-returned" if t.is_alive() else box.get("exc", "?")], "out_a": [], "results": []}
+        return hung, crashed or ["public call did not return within 20 s"], 1
+    o = box["o"]
     return exchange(o, rec), crashed, o.get("raiser_calls", 0)
 
 
